@@ -41,6 +41,7 @@ fn main() {
         "ast" => m_ast::line,
         "sema" => m_sema::line,
         "semapay" => m_sema::payload_line,
+        "srcerrs" => m_sema::srcerrs_line,
         "uclass" => m_lex::uclass,
         _ => {
             eprintln!("usage: oq3-run <mode>");
